@@ -180,6 +180,9 @@ mod sys;
 mod tree;
 mod types;
 mod value;
+#[cfg(feature = "verif_hooks")]
+#[doc(hidden)]
+pub mod verif;
 #[cfg(feature = "window")]
 #[doc(hidden)]
 pub mod window;
